@@ -154,6 +154,27 @@ def big_case(r, n, p, shape, ks, unit=1):
 
 
 SHAPES = ["iso", "ramp", "scaled", "offset", "offscaled", "offramp"]
+BIG_OFFSETS = [100000, 10000000, 1073741824, 1700000000]      # 1e5, 1e7, 2^30, a unix time stamp
+
+
+def shifted_cases(r, count):
+    """columns with a huge common offset relative to their spread (time stamps, sensor baselines): the harness adds
+    the integer offset `offs[j]` (exact in f64) to column j of the records and probes and subtracts it from the logged
+    mean / reconstructions; PCA is shift-invariant apart from the mean, so the specification keeps the un-shifted
+    matrix.  p >= 10 with k in {1, 2, p div 5} is the iterative (LOBPCG) path, k = p div 3 + 1 and k = p the complete one."""
+    out = []
+    plan = [(50, 10), (80, 16), (100, 20), (60, 12), (65, 13), (150, 30)]
+    for i in range(count):
+        n, p = plan[i % len(plan)]
+        sh = ["iso", "ramp", "scaled"][(i // len(plan) + i) % 3]
+        ks = sorted({1, 2, p // 5, p // 3 + 1, p})
+        c = big_case(r, n, p, sh, ks, 1)
+        if c:
+            # every column shifted, or every other one (offsets of mixed size)
+            c["inp"]["offs"] = [r.choice(BIG_OFFSETS) if (i % 2 == 0 or j % 2 == 0) else 0 for j in range(p)]
+            c["inp"]["shape"] += "+shift"
+            out.append(c)
+    return out
 
 
 def big_cases(ctx):
@@ -228,11 +249,14 @@ def run(ctx):
     cases += big
     tiny = small_unit_cases(ctx, 36 if ctx.quick else 300)
     cases += tiny
+    shifted = shifted_cases(ctx.rng, 5 if ctx.quick else 36)
+    cases += shifted
     vlib.number(cases)
     ctx.cases = len(cases)
     ctx.nontrivial = len({repr(c["inp"]["x"]) for c in cases if nontrivial(c)})
     ctx.extra["large_cases"] = len(big)
     ctx.extra["small_unit_cases"] = len(tiny)
+    ctx.extra["shifted_cases"] = len(shifted)
     ctx.extra["large_fits_by_regime"] = {
         "k<=p/5": sum(1 for c in big for k in c["inp"]["ks"] if 5 * k <= c["inp"]["p"]),
         "p/5<k<=p/3": sum(1 for c in big for k in c["inp"]["ks"] if 5 * k > c["inp"]["p"] and 3 * k <= c["inp"]["p"]),
@@ -267,6 +291,9 @@ def run(ctx):
                        "for n > 20 the projection / round trip is logged for the first 3 training rows and the probes only",
                        "large cases with unit u > 1: the implementation runs on u*x and is observed in units of u (PCA is "
                        "homogeneous in the unit of length); the relation is evaluated on x",
+                       "shifted cases: column offsets up to 1.7e9 are added by the harness and removed from the logged mean and "
+                       "reconstructions (shift invariance of PCA); a backward-stable centring perturbs the data by "
+                       "eps * offset <= 4e-7, far below the 1e-4 observation scale",
                        "an explained-variance ratio is a fraction (<= 1)"]
     return vlib.finish(ctx)
 
